@@ -54,6 +54,16 @@ impl Dbs {
         }
         sierra(db, &ci)
     }
+    /// Full diagnostics text of `code` under `cfg` (untruncated).
+    pub fn full_diagnostics(&mut self, cfg: &Cfg, code: &str) -> String {
+        let key = Cfg { linear: true, ..*cfg }.name();
+        if !self.map.contains_key(&key) {
+            self.map.insert(key.clone(), (new_db(cfg), 0));
+        }
+        let (db, _) = self.map.get_mut(&key).unwrap();
+        let ci = set_src(db, "test", code);
+        diagnostics(db, &ci).0
+    }
     pub fn forget(&mut self, cfg: &Cfg) {
         self.map.remove(&Cfg { linear: true, ..*cfg }.name());
     }
